@@ -142,6 +142,9 @@ theorem c06_marker_never (e : Enc) (ts : List Bytes) : ∀ p ∈ (encode e ts).2
 
 /-! ## C08 (stateless decoder) -/
 
+/-- (F) `type Decoder struct{}` (regenerated from /repo on every run) -/
+theorem c08_state_fields : CodecMisc.mpegtsDecoderIsEmptyStruct = true := by decide
+
 /-- **C08 bounded memory**: the decoder keeps nothing between calls. -/
 theorem c08_retained_le : retained ≤ 0 := Nat.le_refl _
 
